@@ -31,7 +31,7 @@ YOUR TASK: produce a *realistic, subtle* change to the source code (a plausible 
   (c) the breakage needs something specific to manifest — a particular input shape, an unusual-but-legal value, a multi-step sequence of operations, a particular interleaving/loss pattern, a boundary — NOT something ordinary use would expose at once.
 Do not weaken or edit existing tests. Do not add new dependencies. Keep the change small (a few lines, at most two sites).
 
-Also write a DEMONSTRATION: a new Rust test (put it in a NEW file, e.g. a new integration test file under the relevant crate's tests/ directory, or a new #[cfg(test)] module in a new file — do not modify existing test files) or a tiny program, which FAILS with your change applied and PASSES on the unchanged code. Verify both directions yourself (use `git stash` / `git apply -R` to go back and forth).
+Also write a DEMONSTRATION: a new Rust test (put it in a NEW file, e.g. a new integration test file under the relevant crate's tests/ directory, or a new #[cfg(test)] module in a new file — do not modify existing test files) or a tiny program, which FAILS with your change applied and PASSES on the unchanged code. Verify both directions yourself (use `git diff > /tmp/x.diff && git checkout -- .` / `git apply` / `git apply -R` to go back and forth; do NOT use `git stash`: the stash is shared between all worktrees of the repository and other people are working in sibling worktrees right now).
 
 DELIVERABLES, written into the directory {wt}/_seed/ :
   - patch.diff   : `git diff` of ONLY the source change that breaks the property (NOT including the demonstration), applicable with `git apply` at the repository root of the unchanged tree
